@@ -50,12 +50,13 @@ def stft_ref(x, fl, fs, style, kaldi, window, D, H, use_log, use_power, include_
     nf = num_frames(N, fl, fs)
     out = np.zeros((nf, F))
     p = 2 if use_power else 1
-    xscale = 0.0
+    xscale = escale = 0.0
     for k in range(nf):
         s = frame_start(k, fl, fs, style, kaldi)
         frame = x[reflect_index(np.arange(s, s + fl), N)]
         X = np.fft.fft(frame * window, n=D)
         xscale = max(xscale, float(np.sum(np.abs(X) ** p)))
+        escale = max(escale, float(np.sum(np.abs(frame)) ** p))
         off = 0
         if include_energy:
             e = float(np.mean(frame ** 2))
@@ -65,7 +66,9 @@ def stft_ref(x, fl, fs, style, kaldi, window, D, H, use_log, use_power, include_
             out[k, off + i] = np.sum(np.abs(X * h) ** p)
     if use_log:
         out = np.log(np.maximum(out, log_floor))
-    stft_ref.last_xscale = xscale  # largest sum_k |X_k|^p over the frames (unit-gain coefficient scale)
+    # largest sum_k |X_k|^p over the frames (unit-gain coefficient scale), and (sum_n |frame_n|)^p, the
+    # magnitude scale of the frame itself (windows are normalised to sum to ~1, so |X_k| <= ~ that)
+    stft_ref.last_xscale = max(xscale, 1e-4 * escale)
     return out
 
 
